@@ -1,4 +1,4 @@
-package main
+package hv
 
 // Grammar-directed generator of native-syntax configuration text in wild
 // layouts. It is purely syntactic (names are not bound to anything); the typed
@@ -9,8 +9,8 @@ import (
 	"strings"
 )
 
-type hclGen struct {
-	r     *rng
+type HclGen struct {
+	r     *Rng
 	b     strings.Builder
 	wild  float64 // probability of unusual layout at each opportunity
 	nlOK  int     // >0: inside () or [] or ${ }: newlines are insignificant
@@ -22,25 +22,25 @@ type hclGen struct {
 	noComments bool
 }
 
-func newHclGen(r *rng) *hclGen {
-	return &hclGen{r: r, wild: 0.25, feat: map[string]int{}}
+func NewHclGen(r *Rng) *HclGen {
+	return &HclGen{r: r, wild: 0.25, feat: map[string]int{}}
 }
 
-func (g *hclGen) f(name string) { g.feat[name]++ }
-func (g *hclGen) w(s string)    { g.b.WriteString(s) }
+func (g *HclGen) f(name string) { g.feat[name]++ }
+func (g *HclGen) w(s string)    { g.b.WriteString(s) }
 
 var identPool = []string{"a", "b", "foo", "bar", "in", "for", "if", "else", "endif", "endfor", "null", "true", "false", "x1", "a-b", "_u", "each", "var", "local", "count", "ünï", "k_2"}
 var namePool = []string{"a", "b", "foo", "bar", "baz", "x1", "a-b", "_u", "name", "count", "tags", "ünï", "in", "k_2", "for"}
 var funcPool = []string{"f", "upper", "min", "ns::f", "a::b::c", "concat"}
 
-func (g *hclGen) ident() string { return identPool[g.r.intn(len(identPool))] }
-func (g *hclGen) name() string  { return namePool[g.r.intn(len(namePool))] }
-func (g *hclGen) varname() string {
+func (g *HclGen) ident() string { return identPool[g.r.Intn(len(identPool))] }
+func (g *HclGen) name() string  { return namePool[g.r.Intn(len(namePool))] }
+func (g *HclGen) varname() string {
 	for {
 		s := g.ident()
 		switch s {
 		case "true", "false", "null", "for", "if", "else", "endif", "endfor", "in":
-			if !g.r.chance(0.15) {
+			if !g.r.Chance(0.15) {
 				continue
 			}
 			if s == "for" || s == "if" || s == "in" || s == "else" || s == "endif" || s == "endfor" {
@@ -52,13 +52,13 @@ func (g *hclGen) varname() string {
 }
 
 // blank emits horizontal whitespace only.
-func (g *hclGen) blank(min int) {
+func (g *HclGen) blank(min int) {
 	n := min
-	if g.r.chance(g.wild) {
-		n += g.r.intn(4)
+	if g.r.Chance(g.wild) {
+		n += g.r.Intn(4)
 	}
 	for i := 0; i < n; i++ {
-		if g.r.chance(g.wild * 0.3) {
+		if g.r.Chance(g.wild * 0.3) {
 			g.w("\t")
 		} else {
 			g.w(" ")
@@ -66,25 +66,25 @@ func (g *hclGen) blank(min int) {
 	}
 }
 
-func (g *hclGen) commentText() string {
-	return g.r.pick("c", "todo: x = 1", "a { b }", "\"q", "${x}", "é", "", " spaced  out ", "#", "*/ /*"[:0]+"star*")
+func (g *HclGen) commentText() string {
+	return g.r.Pick("c", "todo: x = 1", "a { b }", "\"q", "${x}", "é", "", " spaced  out ", "#", "*/ /*"[:0]+"star*")
 }
 
 // ws emits optional whitespace; where newlines are insignificant it may also
 // emit newlines and comments. min = minimum number of blanks when nothing else
 // separates the neighbours.
-func (g *hclGen) ws(min int) {
-	if g.r.chance(g.wild*0.25) && !g.noComments {
+func (g *HclGen) ws(min int) {
+	if g.r.Chance(g.wild*0.25) && !g.noComments {
 		g.blank(0)
 		g.w("/*" + g.commentText() + "*/")
 		g.f("inline-comment")
 		g.blank(0)
 		return
 	}
-	if g.nlOK > 0 && g.r.chance(g.wild*0.6) {
+	if g.nlOK > 0 && g.r.Chance(g.wild*0.6) {
 		g.blank(0)
-		if g.r.chance(0.3) && !g.noComments {
-			g.w(g.r.pick("#", "//") + g.commentText())
+		if g.r.Chance(0.3) && !g.noComments {
+			g.w(g.r.Pick("#", "//") + g.commentText())
 			g.f("line-comment-in-expr")
 		}
 		g.nl()
@@ -94,8 +94,8 @@ func (g *hclGen) ws(min int) {
 	g.blank(min)
 }
 
-func (g *hclGen) nl() {
-	if g.r.chance(g.wild * 0.3) {
+func (g *HclGen) nl() {
+	if g.r.Chance(g.wild * 0.3) {
 		g.w("\r\n")
 		g.f("crlf")
 	} else {
@@ -105,40 +105,40 @@ func (g *hclGen) nl() {
 
 // ---- expressions ------------------------------------------------------------
 
-func (g *hclGen) number() string {
-	switch g.r.intn(8) {
+func (g *HclGen) number() string {
+	switch g.r.Intn(8) {
 	case 0:
-		return fmt.Sprintf("%d.%d", g.r.intn(100), g.r.intn(1000))
+		return fmt.Sprintf("%d.%d", g.r.Intn(100), g.r.Intn(1000))
 	case 1:
-		return fmt.Sprintf("%de%d", g.r.intn(50), g.r.intn(5))
+		return fmt.Sprintf("%de%d", g.r.Intn(50), g.r.Intn(5))
 	case 2:
-		return fmt.Sprintf("%d.%dE+%d", g.r.intn(9), g.r.intn(9), g.r.intn(3))
+		return fmt.Sprintf("%d.%dE+%d", g.r.Intn(9), g.r.Intn(9), g.r.Intn(3))
 	case 3:
 		return "0"
 	default:
-		return fmt.Sprintf("%d", g.r.intn(200))
+		return fmt.Sprintf("%d", g.r.Intn(200))
 	}
 }
 
 var binOps = []string{"+", "-", "*", "/", "%", "==", "!=", "<", "<=", ">", ">=", "&&", "||"}
 
-func (g *hclGen) expr() {
+func (g *HclGen) expr() {
 	g.depth++
 	defer func() { g.depth-- }()
 	if g.depth > 5 {
 		g.term()
 		return
 	}
-	switch x := g.r.intn(20); {
+	switch x := g.r.Intn(20); {
 	case x < 9:
 		g.term()
 	case x < 14:
 		g.f("binop")
 		g.expr1()
-		n := 1 + g.r.small(2)
+		n := 1 + g.r.Small(2)
 		for i := 0; i < n; i++ {
 			g.ws(1)
-			g.w(binOps[g.r.intn(len(binOps))])
+			g.w(binOps[g.r.Intn(len(binOps))])
 			g.ws(1)
 			g.expr1()
 		}
@@ -159,24 +159,24 @@ func (g *hclGen) expr() {
 }
 
 // expr1: unary-level expression
-func (g *hclGen) expr1() {
-	if g.r.chance(0.15) {
+func (g *HclGen) expr1() {
+	if g.r.Chance(0.15) {
 		g.f("unary")
-		g.w(g.r.pick("-", "!", "-", "- ", "! "))
-		if g.r.chance(0.1) {
-			g.w(g.r.pick("-", "!"))
+		g.w(g.r.Pick("-", "!", "-", "- ", "! "))
+		if g.r.Chance(0.1) {
+			g.w(g.r.Pick("-", "!"))
 		}
 	}
 	g.term()
 }
 
-func (g *hclGen) term() {
+func (g *HclGen) term() {
 	g.depth++
 	defer func() { g.depth-- }()
 	d := g.depth
-	choice := g.r.intn(24)
+	choice := g.r.Intn(24)
 	if d > 6 {
-		choice = g.r.intn(8)
+		choice = g.r.Intn(8)
 	}
 	switch {
 	case choice < 3:
@@ -184,7 +184,7 @@ func (g *hclGen) term() {
 		g.w(g.number())
 	case choice < 4:
 		g.f("keyword-lit")
-		g.w(g.r.pick("true", "false", "null"))
+		g.w(g.r.Pick("true", "false", "null"))
 	case choice < 8:
 		g.f("var")
 		g.w(g.varname())
@@ -195,56 +195,56 @@ func (g *hclGen) term() {
 		} else {
 			g.quoted()
 		}
-		if g.r.chance(0.1) {
+		if g.r.Chance(0.1) {
 			g.traversal()
 		}
 	case choice < 13:
 		g.f("tuple")
 		g.w("[")
 		g.nlOK++
-		n := g.r.small(4)
+		n := g.r.Small(4)
 		for i := 0; i < n; i++ {
 			g.ws(0)
 			g.expr()
 			g.ws(0)
-			if i < n-1 || g.r.chance(0.2) {
+			if i < n-1 || g.r.Chance(0.2) {
 				g.w(",")
 			}
 		}
 		g.ws(0)
 		g.nlOK--
 		g.w("]")
-		if g.r.chance(0.2) {
+		if g.r.Chance(0.2) {
 			g.traversal()
 		}
 	case choice < 15:
 		g.object()
 	case choice < 17:
 		g.f("call")
-		g.w(funcPool[g.r.intn(len(funcPool))])
-		if g.r.chance(g.wild * 0.2) {
+		g.w(funcPool[g.r.Intn(len(funcPool))])
+		if g.r.Chance(g.wild * 0.2) {
 			g.blank(1)
 		}
 		g.w("(")
 		g.nlOK++
-		n := g.r.small(3)
+		n := g.r.Small(3)
 		for i := 0; i < n; i++ {
 			g.ws(0)
 			g.expr()
 			g.ws(0)
 			if i < n-1 {
 				g.w(",")
-			} else if g.r.chance(0.2) {
+			} else if g.r.Chance(0.2) {
 				g.w("...")
 				g.f("expand")
-			} else if g.r.chance(0.1) {
+			} else if g.r.Chance(0.1) {
 				g.w(",")
 			}
 		}
 		g.ws(0)
 		g.nlOK--
 		g.w(")")
-		if g.r.chance(0.2) {
+		if g.r.Chance(0.2) {
 			g.traversal()
 		}
 	case choice < 19:
@@ -256,7 +256,7 @@ func (g *hclGen) term() {
 		g.ws(0)
 		g.nlOK--
 		g.w(")")
-		if g.r.chance(0.2) {
+		if g.r.Chance(0.2) {
 			g.traversal()
 		}
 	case choice < 21:
@@ -267,19 +267,19 @@ func (g *hclGen) term() {
 	}
 }
 
-func (g *hclGen) traversal() {
-	n := g.r.small(4)
+func (g *HclGen) traversal() {
+	n := g.r.Small(4)
 	for i := 0; i < n; i++ {
 		// whitespace before a step (legal; the formatter must cope)
-		if g.r.chance(g.wild * 0.3) {
+		if g.r.Chance(g.wild * 0.3) {
 			g.ws(1)
 			g.f("space-before-step")
 		}
-		switch g.r.intn(12) {
+		switch g.r.Intn(12) {
 		case 0, 1, 2, 3:
 			g.f("step-attr")
 			g.w(".")
-			if g.r.chance(g.wild * 0.2) {
+			if g.r.Chance(g.wild * 0.2) {
 				g.ws(1)
 			}
 			g.w(g.name())
@@ -288,7 +288,7 @@ func (g *hclGen) traversal() {
 			g.w("[")
 			g.nlOK++
 			g.ws(0)
-			g.w(fmt.Sprintf("%d", g.r.intn(5)))
+			g.w(fmt.Sprintf("%d", g.r.Intn(5)))
 			g.ws(0)
 			g.nlOK--
 			g.w("]")
@@ -297,7 +297,7 @@ func (g *hclGen) traversal() {
 			g.w("[")
 			g.nlOK++
 			g.ws(0)
-			g.w(`"` + g.r.pick("k", "a b", "", "ü", "for") + `"`)
+			g.w(`"` + g.r.Pick("k", "a b", "", "ü", "for") + `"`)
 			g.ws(0)
 			g.nlOK--
 			g.w("]")
@@ -312,7 +312,7 @@ func (g *hclGen) traversal() {
 			g.w("]")
 		case 8:
 			g.f("step-legacy")
-			g.w("." + fmt.Sprintf("%d", g.r.intn(4)))
+			g.w("." + fmt.Sprintf("%d", g.r.Intn(4)))
 		case 9:
 			g.f("step-splat-full")
 			g.w("[*]")
@@ -321,21 +321,21 @@ func (g *hclGen) traversal() {
 			g.w(".*")
 		case 11:
 			g.f("step-index-kw")
-			g.w("[" + g.r.pick("true", "false", "null") + "]")
+			g.w("[" + g.r.Pick("true", "false", "null") + "]")
 		}
 	}
 }
 
-func (g *hclGen) object() {
+func (g *HclGen) object() {
 	g.f("object")
 	g.w("{")
-	n := g.r.small(4)
-	multi := g.r.chance(0.5)
+	n := g.r.Small(4)
+	multi := g.r.Chance(0.5)
 	for i := 0; i < n; i++ {
 		if multi {
 			g.blank(0)
-			if g.r.chance(g.wild*0.3) && !g.noComments {
-				g.w(g.r.pick("#", "//") + g.commentText())
+			if g.r.Chance(g.wild*0.3) && !g.noComments {
+				g.w(g.r.Pick("#", "//") + g.commentText())
 			}
 			g.nl()
 			g.blank(0)
@@ -343,9 +343,9 @@ func (g *hclGen) object() {
 			g.blank(0)
 		}
 		// key
-		switch g.r.intn(8) {
+		switch g.r.Intn(8) {
 		case 0:
-			g.w(`"` + g.r.pick("k", "a b", "for", "x.y") + `"`)
+			g.w(`"` + g.r.Pick("k", "a b", "for", "x.y") + `"`)
 		case 1:
 			g.w("(")
 			g.nlOK++
@@ -355,7 +355,7 @@ func (g *hclGen) object() {
 			g.nlOK--
 			g.w(")")
 		case 2:
-			g.w(fmt.Sprintf("%d", g.r.intn(9)))
+			g.w(fmt.Sprintf("%d", g.r.Intn(9)))
 		case 3:
 			g.w(g.name() + "." + g.name())
 		default:
@@ -366,7 +366,7 @@ func (g *hclGen) object() {
 			g.w(k)
 		}
 		g.blank(0)
-		g.w(g.r.pick("=", "=", ":"))
+		g.w(g.r.Pick("=", "=", ":"))
 		g.blank(0)
 		g.expr()
 		if !multi {
@@ -374,7 +374,7 @@ func (g *hclGen) object() {
 				g.blank(0)
 				g.w(",")
 			}
-		} else if g.r.chance(0.3) {
+		} else if g.r.Chance(0.3) {
 			g.blank(0)
 			g.w(",")
 		}
@@ -387,9 +387,9 @@ func (g *hclGen) object() {
 	g.w("}")
 }
 
-func (g *hclGen) forExpr() {
+func (g *HclGen) forExpr() {
 	g.f("for")
-	obj := g.r.chance(0.4)
+	obj := g.r.Chance(0.4)
 	if obj {
 		g.w("{")
 	} else {
@@ -399,12 +399,12 @@ func (g *hclGen) forExpr() {
 	g.ws(0)
 	g.w("for")
 	g.ws(1)
-	g.w(g.r.pick("k", "v", "x"))
-	if g.r.chance(0.4) {
+	g.w(g.r.Pick("k", "v", "x"))
+	if g.r.Chance(0.4) {
 		g.ws(0)
 		g.w(",")
 		g.ws(0)
-		g.w(g.r.pick("v2", "y"))
+		g.w(g.r.Pick("v2", "y"))
 	}
 	g.ws(1)
 	g.w("in")
@@ -419,11 +419,11 @@ func (g *hclGen) forExpr() {
 		g.w("=>")
 		g.ws(0)
 		g.expr()
-		if g.r.chance(0.3) {
+		if g.r.Chance(0.3) {
 			g.w("...")
 		}
 	}
-	if g.r.chance(0.3) {
+	if g.r.Chance(0.3) {
 		g.ws(1)
 		g.w("if")
 		g.ws(1)
@@ -440,12 +440,12 @@ func (g *hclGen) forExpr() {
 
 var litChunks = []string{"a", "hello ", " ", "x y", "é", "日本", `\n`, `\t`, `\"`, `\\`, `é`, `\U0001F600`, "$${", "%%{", "$", "%", "$$", "1.5", "{", "}", "#", "//", "/*", "'", "́"}
 
-func (g *hclGen) templateParts(heredoc bool) {
-	n := g.r.small(5)
+func (g *HclGen) templateParts(heredoc bool) {
+	n := g.r.Small(5)
 	for i := 0; i < n; i++ {
-		switch x := g.r.intn(10); {
+		switch x := g.r.Intn(10); {
 		case x < 6:
-			c := litChunks[g.r.intn(len(litChunks))]
+			c := litChunks[g.r.Intn(len(litChunks))]
 			if heredoc && strings.HasPrefix(c, `\`) {
 				c = "lit"
 			}
@@ -455,7 +455,7 @@ func (g *hclGen) templateParts(heredoc bool) {
 		case x < 9 || g.depth > 4:
 			g.f("tpl-interp")
 			g.w("${")
-			if g.r.chance(0.15) {
+			if g.r.Chance(0.15) {
 				g.w("~")
 			}
 			g.nlOK++
@@ -466,13 +466,13 @@ func (g *hclGen) templateParts(heredoc bool) {
 			g.ws(0)
 			g.noHeredoc = save
 			g.nlOK--
-			if g.r.chance(0.15) {
+			if g.r.Chance(0.15) {
 				g.w("~")
 			}
 			g.w("}")
 		default:
 			g.depth++
-			if g.r.chance(0.5) {
+			if g.r.Chance(0.5) {
 				g.f("tpl-if")
 				g.w("%{")
 				g.nlOK++
@@ -484,11 +484,11 @@ func (g *hclGen) templateParts(heredoc bool) {
 				g.nlOK--
 				g.w("}")
 				g.templateParts(heredoc)
-				if g.r.chance(0.4) {
+				if g.r.Chance(0.4) {
 					g.w("%{ else }")
 					g.templateParts(heredoc)
 				}
-				g.w("%{" + g.r.pick("", " ", "~") + "endif" + g.r.pick("", " ", "~") + "}")
+				g.w("%{" + g.r.Pick("", " ", "~") + "endif" + g.r.Pick("", " ", "~") + "}")
 			} else {
 				g.f("tpl-for")
 				g.w("%{ for x in ")
@@ -508,53 +508,53 @@ func (g *hclGen) templateParts(heredoc bool) {
 	}
 }
 
-func (g *hclGen) quoted() {
+func (g *HclGen) quoted() {
 	g.f("quoted")
 	g.w(`"`)
 	g.templateParts(false)
 	g.w(`"`)
 }
 
-func (g *hclGen) heredoc() {
+func (g *HclGen) heredoc() {
 	g.f("heredoc")
-	marker := g.r.pick("EOT", "EOF", "E_1")
-	flush := g.r.chance(0.4)
-	if flush {
+	marker := g.r.Pick("EOT", "EOF", "E_1")
+	Flush := g.r.Chance(0.4)
+	if Flush {
 		g.w("<<-" + marker)
 		g.f("heredoc-flush")
 	} else {
 		g.w("<<" + marker)
 	}
 	g.w("\n")
-	lines := g.r.small(4)
+	lines := g.r.Small(4)
 	for i := 0; i < lines; i++ {
-		g.w(strings.Repeat(" ", g.r.intn(5)))
-		if g.r.chance(0.7) {
+		g.w(strings.Repeat(" ", g.r.Intn(5)))
+		if g.r.Chance(0.7) {
 			g.templateParts(true)
 		}
 		g.w("\n")
 	}
-	if flush {
-		g.w(strings.Repeat(" ", g.r.intn(4)))
+	if Flush {
+		g.w(strings.Repeat(" ", g.r.Intn(4)))
 	}
 	g.w(marker)
 }
 
 // ---- bodies -----------------------------------------------------------------
 
-func (g *hclGen) leadComments() {
+func (g *HclGen) leadComments() {
 	if g.noComments {
 		return
 	}
-	for g.r.chance(0.12) {
+	for g.r.Chance(0.12) {
 		g.blank(0)
-		switch g.r.intn(3) {
+		switch g.r.Intn(3) {
 		case 0:
 			g.w("#" + g.commentText() + "\n")
 		case 1:
 			g.w("//" + g.commentText() + "\n")
 		case 2:
-			g.w("/*" + g.commentText() + g.r.pick("", "\n more ") + "*/")
+			g.w("/*" + g.commentText() + g.r.Pick("", "\n more ") + "*/")
 			g.blank(0)
 			g.nl()
 		}
@@ -562,28 +562,28 @@ func (g *hclGen) leadComments() {
 	}
 }
 
-func (g *hclGen) lineEnd() {
+func (g *HclGen) lineEnd() {
 	g.blank(0)
-	if g.r.chance(0.15) && !g.noComments {
-		g.w(g.r.pick("#", "//") + g.commentText())
+	if g.r.Chance(0.15) && !g.noComments {
+		g.w(g.r.Pick("#", "//") + g.commentText())
 		g.f("line-comment")
 		g.w("\n")
 		return
 	}
-	if g.r.chance(0.05) && !g.noComments {
+	if g.r.Chance(0.05) && !g.noComments {
 		g.w("/*" + g.commentText() + "*/")
 		g.blank(0)
 	}
 	g.nl()
 }
 
-func (g *hclGen) attr() {
+func (g *HclGen) attr() {
 	g.f("attr")
 	g.w(g.name())
 	g.blank(1)
 	g.w("=")
 	g.blank(1)
-	if !g.noHeredoc && !g.noTemplate && g.r.chance(0.08) {
+	if !g.noHeredoc && !g.noTemplate && g.r.Chance(0.08) {
 		g.heredoc()
 		g.w("\n")
 		return
@@ -592,25 +592,25 @@ func (g *hclGen) attr() {
 	g.lineEnd()
 }
 
-func (g *hclGen) label() {
-	if g.r.chance(0.5) {
+func (g *HclGen) label() {
+	if g.r.Chance(0.5) {
 		g.w(g.name())
 	} else {
-		g.w(`"` + g.r.pick("l", "a b", "ü", `q\"q`, "x.y", "", "a$b", "p%q") + `"`)
+		g.w(`"` + g.r.Pick("l", "a b", "ü", `q\"q`, "x.y", "", "a$b", "p%q") + `"`)
 	}
 }
 
-func (g *hclGen) block(level int) {
+func (g *HclGen) block(level int) {
 	g.f("block")
 	g.w(g.name())
-	n := g.r.small(3)
+	n := g.r.Small(3)
 	for i := 0; i < n; i++ {
 		g.blank(1)
 		g.label()
 	}
 	g.blank(1)
 	g.w("{")
-	switch x := g.r.intn(10); {
+	switch x := g.r.Intn(10); {
 	case x < 2:
 		// empty block, one line
 		g.blank(0)
@@ -640,92 +640,92 @@ func (g *hclGen) block(level int) {
 	}
 }
 
-func (g *hclGen) indent(level int) {
-	if g.r.chance(g.wild) {
+func (g *HclGen) indent(level int) {
+	if g.r.Chance(g.wild) {
 		g.blank(0)
 	} else {
 		g.w(strings.Repeat("  ", level))
 	}
 }
 
-func (g *hclGen) body(level int) {
-	n := g.r.small(5)
+func (g *HclGen) body(level int) {
+	n := g.r.Small(5)
 	if level == 0 {
 		n++
 	}
 	for i := 0; i < n; i++ {
 		g.leadComments()
 		g.indent(level)
-		if g.r.chance(0.65) || level > 3 {
+		if g.r.Chance(0.65) || level > 3 {
 			g.attr()
 		} else {
 			g.block(level)
 		}
-		if g.r.chance(0.15) {
+		if g.r.Chance(0.15) {
 			g.blank(0)
 			g.nl()
 		}
 	}
 }
 
-// genConfig returns one configuration text.
-func genConfig(r *rng) (string, map[string]int) {
-	g := newHclGen(r)
-	g.wild = []float64{0.0, 0.1, 0.3, 0.6}[r.intn(4)]
-	if r.chance(0.03) {
+// GenConfig returns one configuration text.
+func GenConfig(r *Rng) (string, map[string]int) {
+	g := NewHclGen(r)
+	g.wild = []float64{0.0, 0.1, 0.3, 0.6}[r.Intn(4)]
+	if r.Chance(0.03) {
 		g.w("\xef\xbb\xbf")
 		g.f("bom")
 	}
 	g.body(0)
 	s := g.b.String()
-	if r.chance(0.15) {
+	if r.Chance(0.15) {
 		s = strings.TrimRight(s, "\r\n")
 		g.f("no-final-newline")
 	}
 	return s, g.feat
 }
 
-// genExprText returns one expression text.
-func genExprText(r *rng) (string, map[string]int) {
-	g := newHclGen(r)
-	g.wild = []float64{0.0, 0.1, 0.3, 0.6}[r.intn(4)]
+// GenExprText returns one expression text.
+func GenExprText(r *Rng) (string, map[string]int) {
+	g := NewHclGen(r)
+	g.wild = []float64{0.0, 0.1, 0.3, 0.6}[r.Intn(4)]
 	g.noHeredoc = true
 	g.expr()
 	return g.b.String(), g.feat
 }
 
-// mutate applies 1..3 byte/structure-level mutations to produce near-valid input.
+// Mutate applies 1..3 byte/structure-level mutations to produce near-valid input.
 var mutTokens = []string{"{", "}", "[", "]", "(", ")", "\"", "${", "%{", "}", "<<EOT\n", "EOT\n", "for", "in", "if", "=", "==", ":", "?", ",", ".", "...", "=>", "*", "\n", "\r", "\t", " ", "#", "/*", "*/", "\\", "\xff", "\xc3", "\x00", "\xe2\x80", "~", "!", "-", "$", "%", "'", "`", ";", "&", "|", "^", "0", "1e", "a"}
 
-func mutate(r *rng, s string) string {
+func Mutate(r *Rng, s string) string {
 	b := []byte(s)
-	k := 1 + r.small(2)
+	k := 1 + r.Small(2)
 	for i := 0; i < k; i++ {
 		if len(b) == 0 {
-			b = []byte(mutTokens[r.intn(len(mutTokens))])
+			b = []byte(mutTokens[r.Intn(len(mutTokens))])
 			continue
 		}
-		p := r.intn(len(b) + 1)
-		switch r.intn(4) {
+		p := r.Intn(len(b) + 1)
+		switch r.Intn(4) {
 		case 0: // insert
-			t := mutTokens[r.intn(len(mutTokens))]
+			t := mutTokens[r.Intn(len(mutTokens))]
 			b = append(b[:p], append([]byte(t), b[p:]...)...)
 		case 1: // delete a short run
-			q := p + 1 + r.intn(3)
+			q := p + 1 + r.Intn(3)
 			if q > len(b) {
 				q = len(b)
 			}
 			b = append(b[:p], b[q:]...)
 		case 2: // replace
 			if p < len(b) {
-				t := mutTokens[r.intn(len(mutTokens))]
+				t := mutTokens[r.Intn(len(mutTokens))]
 				b = append(b[:p], append([]byte(t), b[p+1:]...)...)
 			}
 		case 3: // truncate
-			if r.chance(0.3) {
+			if r.Chance(0.3) {
 				b = b[:p]
 			} else if p < len(b) {
-				b[p] = byte(r.intn(256))
+				b[p] = byte(r.Intn(256))
 			}
 		}
 	}
